@@ -13,7 +13,7 @@ import (
 )
 
 func init() {
-	Explanations["C18"] = "Decides structural necessary conditions of 'limits and shutdown are honoured under any schedule': (R1) in the peer loop every path from a successful send on the per-peer semaphore reaches a receive from it, directly or as a deferred receive registered before any exit of the spawned handler goroutine; (R2) every path from a successful subnet-slot acquisition reaches its release in the same way; (R3) throughout the repository every successful ThreadGroup.Add/AddContext is followed on every path to the exit by its done function (deferred, called, or handed out in the returned closure); (R4) inside ThreadGroup the WaitGroup is incremented only under the mutex on the not-closed branch, the closed channel is closed only under the mutex on the not-closed branch, Wait runs without the mutex, and the method that waits reaches Wait on every path (a second Stop does not return early); (R5) the per-peer acquisition is a select without default (back-pressure, not dropping); (R6) every insertion into the peer table happens in the critical section of a comparison against the inbound cap whose rejecting side cannot reach the insertion; (R7) Close of server, wallet and syncer passes ThreadGroup.Stop on every path; (R8, thorough) the acquired-while-held graph over the repository's mutex fields, built from lockset states and a type-resolved call graph, has no cycle and no self-edge. (R9) in package syncer every return reachable after a registration (Add/Go) in a function-local sync.WaitGroup passes its Wait. NOT decided: deadlock freedom through channels and condition variables, timing, liveness of shutdown."
+	Explanations["C18"] = "Decides structural necessary conditions of 'limits and shutdown are honoured under any schedule': (R1) in the peer loop every path from a successful send on the per-peer semaphore reaches a receive from it, directly or as a deferred receive registered before any exit of the spawned handler goroutine; (R2) every path from a successful subnet-slot acquisition reaches its release in the same way; (R3) throughout the repository every successful ThreadGroup.Add/AddContext is followed on every path to the exit by its done function (deferred, called, or handed out in the returned closure); (R4) inside ThreadGroup the WaitGroup is incremented only under the mutex on the not-closed branch, the closed channel is closed only under the mutex on the not-closed branch, Wait runs without the mutex, and the method that waits reaches Wait on every path (a second Stop does not return early); (R5) the per-peer acquisition is a select without default (back-pressure, not dropping); (R6) every insertion into the peer table happens in the critical section of a comparison against the inbound cap whose rejecting side cannot reach the insertion; (R7) Close of server, wallet and syncer passes ThreadGroup.Stop on every path; (R8, thorough) the acquired-while-held graph over the repository's mutex fields, built from lockset states and a type-resolved call graph, has no cycle and no self-edge. (R9) in package syncer every return reachable after a registration (Add/Go) in a function-local sync.WaitGroup passes its Wait. (R10) gateway.Accept / gateway.Dial in a Syncer method is reached only after SetDeadline / SetReadDeadline with a time on the same connection; (R11) a net.IPNet literal in package syncer has IP = x.Mask(m) for its own Mask m. NOT decided: deadlock freedom through channels and condition variables, timing, liveness of shutdown."
 
 	register(&Rule{ID: "C18.R1", Prop: "C18", Floor: 1, Doc: "per-peer slot: every path from the semaphore send reaches a receive (direct or deferred first in the handler goroutine)", Run: c18r1})
 	register(&Rule{ID: "C18.R2", Prop: "C18", Floor: 1, Doc: "subnet slot: every path from a successful acquire reaches the release", Run: c18r2})
